@@ -642,10 +642,12 @@ class GenFunctions(object):
             val = wformat(arg_typemap.c_to_cxx, fmt)
         set_val = "{} = {};".format(field, val)
 
+        # The C wrapper takes a non-pointer member by value and a pointer
+        # member as a pointer: only the former is a VALUE argument.
         attrs = dict(
             val=dict(
-                intent="in", value=True
-            )  # XXX - what about pointer variables?
+                intent="in", value=not ast.is_indirect()
+            )
         )
 
         splicer = dict(
